@@ -256,6 +256,17 @@ class Driver:
         if self.loop:
             asyncio.set_event_loop(self.loop)
         self.baseline = self.run(None)[0]
+        # the one-piece delivery is the yardstick for every split: it must itself decode to what was sent
+        try:
+            ref = rrpc.decode(sc.reply) if not sc.sealed else None
+            got = self.baseline[1] if self.baseline[0] == "ok" else None
+            got = got[1] if isinstance(got, tuple) and len(got) == 2 and hasattr(got[1], "stub_data") else got
+            if ref is not None and ref.get("stub") is not None and hasattr(got, "stub_data"):
+                rec.count("baseline_checked_against_reference")
+                if bytes(got.stub_data) != ref["stub"]:
+                    rec.violation(f"{client}-one-piece-wrong", f"{sc.name} delivered in one piece: the decoded stub ({len(got.stub_data)} bytes) is not the stub that was sent ({len(ref['stub'])} bytes)", {"reply": sc.name, "client": client, "cuts": [], "reply_len": len(sc.reply)})
+        except rrpc.RpcDecodeError:
+            pass
         if self.baseline[0] == "spin":
             rec.inconclusive_because(f"baseline delivery of {sc.name} did not complete: {self.baseline}")
 
